@@ -47,6 +47,13 @@ pub struct StyleArgs {
     pub spelling: u32,
     /// style options placed after the subcommand / positional arguments (they are `global`)
     pub after: bool,
+    /// format-all with the options after the subcommand: the same options also given *before*
+    /// it, with these other values (`typstyle -c 40 format-all -c 80`: an alias or wrapper script
+    /// overridden on the spot). The occurrence after the subcommand is the one that counts.
+    #[serde(default)]
+    pub pre_column: Option<usize>,
+    #[serde(default)]
+    pub pre_tab: Option<usize>,
 }
 
 impl StyleArgs {
@@ -147,6 +154,15 @@ impl Inv {
         let style = self.style.render();
         if self.style.after {
             post.extend(style);
+            if matches!(self.shape, Shape::FormatAll { .. }) {
+                if let (Some(c), Some(_)) = (self.style.pre_column, self.style.column) {
+                    pre.push("-c".into());
+                    pre.push(c.to_string());
+                }
+                if let (Some(t), Some(_)) = (self.style.pre_tab, self.style.tab) {
+                    pre.push(format!("--tab-width={}", t));
+                }
+            }
         } else {
             pre.extend(style);
         }
@@ -274,6 +290,73 @@ pub fn resolve(cwd: &str, p: &str) -> Option<String> {
         Some(".".into())
     } else {
         Some(parts.join("/"))
+    }
+}
+
+#[derive(Debug, Clone, Copy, PartialEq, Eq)]
+pub enum PathErr {
+    /// leaves the world (or is absolute): not modelled
+    Leaves,
+    /// a component in the middle does not exist
+    Missing,
+    /// a component in the middle (or the last one, before a trailing slash) is not a directory
+    NotDir,
+    /// more than 40 symbolic links on the way
+    Loop,
+}
+
+/// Resolution of a command-line path the way the kernel does it: symbolic links in the middle of
+/// the path are followed, and `..` is the parent of the directory actually reached - which is
+/// not what cancelling `name/..` textually gives once `name` is a link to a directory elsewhere.
+/// Returns the key of the last component (which may be a link itself, or missing; see `follow`);
+/// with a trailing slash the last component has to lead to a directory.
+pub fn resolve_phys(tree: &Tree, cwd: &str, p: &str) -> Result<String, PathErr> {
+    let mut cur: Vec<String> = Vec::new();
+    let rest = if let Some(rest) = p.strip_prefix("{ROOT}") {
+        rest
+    } else {
+        if p.starts_with('/') {
+            return Err(PathErr::Leaves);
+        }
+        cur.extend(cwd.split('/').filter(|c| !c.is_empty() && *c != ".").map(String::from));
+        p
+    };
+    let trailing = rest.ends_with('/');
+    let mut queue: std::collections::VecDeque<String> = rest.split('/').filter(|c| !c.is_empty() && *c != ".").map(String::from).collect();
+    let mut budget = 40;
+    while let Some(c) = queue.pop_front() {
+        if c == ".." {
+            if cur.pop().is_none() {
+                return Err(PathErr::Leaves);
+            }
+            continue;
+        }
+        let key = if cur.is_empty() { c.clone() } else { format!("{}/{}", cur.join("/"), c) };
+        if queue.is_empty() && !trailing {
+            return Ok(key);
+        }
+        match tree.get(&key) {
+            None => return Err(PathErr::Missing),
+            Some(Node::File(_)) => return Err(PathErr::NotDir),
+            Some(Node::Dir) => cur.push(c),
+            Some(Node::Symlink(t)) => {
+                budget -= 1;
+                if budget == 0 {
+                    return Err(PathErr::Loop);
+                }
+                if t.starts_with('/') {
+                    return Err(PathErr::Leaves);
+                }
+                for part in t.split('/').filter(|c| !c.is_empty() && *c != ".").rev() {
+                    queue.push_front(part.to_string());
+                }
+            }
+        }
+    }
+    if cur.is_empty() {
+        Ok(".".into())
+    } else {
+        Ok(cur.join("/"))
     }
 }
 
